@@ -90,11 +90,7 @@ theorem placeOnMatrix_traps {v : Nat} (hv : v < 40) (l : ECL) (bytes : Array Nat
     rw [hmo, hpn]
     have : ∀ m, m < 8 → maskTraps m (Regions.side v) = [] := by
       intro m hm
-      have hsw := sweepOk_of hv hm
-      simp only [sweepOk, Bool.and_eq_true] at hsw
-      unfold maskTraps
-      have e : Regions.side v = 21 + 4 * v := rfl
-      rw [e, hsw.1]; rfl
+      exact SweepSym.maskTraps_nil m _
     simp [this]
   have t4 : ((candidates (placeData (template v) bytes).1).flatMap fun c => scoreTraps c.qr (transpose c.qr)) = [] := by
     rw [List.flatMap_eq_nil_iff]
